@@ -9,11 +9,27 @@ where for<'a> &'a Self: EucRingOps<Self> {}
 
 impl<T> DivRound for T
 where T: Integer, for<'x> &'x T: IntOps<T> {
+    // Nearest integer to self / q (ties away from zero), computed exactly. 
     fn div_round(&self, q: &Self) -> Self {
-        let a = self.to_f64().unwrap();
-        let b = q.to_f64().unwrap();
-        let r = (a / b).round();
-        Self::from_f64(r).unwrap()
+        let d = self / q;             // truncated quotient
+        let r = self - &(&d * q);     // |r| < |q|, sign(r) = sign(self)
+        if r.is_zero() { 
+            return d
+        }
+
+        // compare 2|r| with |q| using non-positive values only (-|x| never overflows).
+        let nr = if r.is_positive() { -&r } else { r.clone() };
+        let nq = if q.is_positive() { -q } else { q.clone() };
+
+        if nr <= &nq - &nr {          // 2|r| >= |q|
+            if r.is_positive() == q.is_positive() { 
+                d + Self::one()
+            } else { 
+                d - Self::one()
+            }
+        } else { 
+            d
+        }
     }
 }
 
